@@ -84,3 +84,25 @@ Proof.
   - assert (H0 : mel_h2s 0 = 0) by (unfold mel_h2s; replace (1 + 0 / 700) with 1 by lra; rewrite ln_1; lra).
     rewrite <- H0. left. apply mel_h2s_incr_l; lra.
 Qed.
+
+Lemma octave_s2h_onto_l l f : 0 < f -> exists s, octave_s2h l s = f.
+Proof. intros Hf. exists (octave_h2s l f). apply octave_s2h_h2s_l; exact Hf. Qed.
+
+Lemma octave_s2h_injective_l l a b : octave_s2h l a = octave_s2h l b -> a = b.
+Proof. intros H. rewrite <- (octave_h2s_s2h_l l a), <- (octave_h2s_s2h_l l b), H. reflexivity. Qed.
+
+Lemma mel_s2h_injective_l a b : mel_s2h a = mel_s2h b -> a = b.
+Proof. intros H. rewrite <- (mel_h2s_s2h_l a), <- (mel_h2s_s2h_l b), H. reflexivity. Qed.
+
+Lemma bark_s2h_injective_l a b : a < 69099 / 2500 -> b < 69099 / 2500 -> bark_s2h a = bark_s2h b -> a = b.
+Proof.
+  intros Ha Hb H. rewrite <- (bark_h2s_s2h_l a Ha), <- (bark_h2s_s2h_l b Hb), H. reflexivity.
+Qed.
+
+Lemma linear_h2s_onto_l l m s : m <> 0 -> exists f, linear_h2s l m f = s.
+Proof. intros Hm. exists (linear_s2h l m s). apply linear_h2s_s2h_l; exact Hm. Qed.
+
+Lemma linear_h2s_injective_l l m a b : m <> 0 -> linear_h2s l m a = linear_h2s l m b -> a = b.
+Proof.
+  intros Hm H. rewrite <- (linear_s2h_h2s_l l m a Hm), <- (linear_s2h_h2s_l l m b Hm), H. reflexivity.
+Qed.
